@@ -344,6 +344,34 @@ func c05value(r *vu.RNG, tiny bool) []byte {
 	return b
 }
 
+// c05splices returns up to max keys made of the nibbles [0,j) ++ [e,len) of k with e-j even: absent
+// keys that leave k inside a branch partial key and re-join its path at a child slot.
+func c05splices(k []byte, max int) [][]byte {
+	nib := make([]byte, 0, 2*len(k))
+	for _, b := range k {
+		nib = append(nib, b>>4, b&15)
+	}
+	if len(nib) > 24 {
+		nib = nib[len(nib)-24:]
+	}
+	pre := k[:len(k)-len(nib)/2]
+	var out [][]byte
+	for e := 2; e < len(nib) && len(out) < max; e++ {
+		for j := e - 2; j >= 0 && len(out) < max; j -= 2 {
+			if nib[j] == nib[e] {
+				continue
+			}
+			sp := append(append([]byte{}, nib[:j]...), nib[e:]...)
+			b := append([]byte{}, pre...)
+			for i := 0; i+1 < len(sp); i += 2 {
+				b = append(b, sp[i]<<4|sp[i+1])
+			}
+			out = append(out, b)
+		}
+	}
+	return out
+}
+
 func c05neighbour(r *vu.RNG, k []byte) []byte {
 	c := append([]byte{}, k...)
 	switch r.Intn(6) {
@@ -383,8 +411,16 @@ func c05Gen(r *vu.RNG, n int, emit func(string)) {
 		if r.Chance(1, 12) {
 			np = 20 + r.Intn(25) // a big state: full branches, deeper paths
 		}
+		var cluster []byte
+		if r.Chance(1, 3) {
+			cluster = c05key(r)
+			cluster = append(cluster, c05key(r)...)
+		}
 		for j := 0; j < np; j++ {
 			k := c05key(r)
+			if cluster != nil && r.Chance(2, 3) {
+				k = append(append([]byte{}, cluster...), k...)
+			}
 			if len(keys) > 0 && r.Chance(1, 3) {
 				k = append(append([]byte{}, keys[r.Intn(len(keys))]...), c05key(r)...)
 			}
@@ -446,6 +482,15 @@ func c05Gen(r *vu.RNG, n int, emit func(string)) {
 			}
 		}
 		query()
+		// spliced keys of one requested present key, with its value (honest proof)
+		for _, k := range req {
+			if v, ok := state[string(k)]; ok {
+				for _, sk := range c05splices(k, 10) {
+					ops = append(ops, "Q:"+vu.Hex(sk)+":"+vu.Hex(v))
+				}
+				break
+			}
+		}
 		// adversarial rounds
 		for a := 0; a < r.Intn(4); a++ {
 			switch r.Intn(9) {
